@@ -142,3 +142,175 @@ Proof.
   all: destruct fn; crush.
 Qed.
 End Renumber.
+
+(* ---- classify never produces a parser error by itself, and the offsets it computes keep every
+        reported column inside the line ---- *)
+Lemma classify_not_err line e : classify line <> RErr e.
+Proof.
+  unfold classify.
+  repeat (step_rx; [ | try discriminate | discriminate ]).
+  - discriminate.
+  - unfold unesc. destruct (re_sub _ _ _ _); discriminate.
+Qed.
+
+Definition pe_col_ok (line : str) (pe : eres) (off : nat) : Prop :=
+  forall msg c, pe = EErr msg c -> 1 <= off + c <= length line + 1.
+
+Definition kind_cols_ok (line : str) (k : lkind) : Prop :=
+  match k with
+  | KAssign _ pe off | KIf pe off | KElif pe off | KWhile pe off | KFor _ _ pe off => pe_col_ok line pe off
+  | KJump _ (Some pe) off | KReturn (Some pe) off => pe_col_ok line pe off
+  | KExpr pe => pe_col_ok line pe 0
+  | _ => True
+  end.
+
+From BS Require Import Proofs.RegexFacts Proofs.ExprFacts.
+
+Lemma sub_list_length {A} (l : list A) a n : length (sub_list l a n) <= length l - a.
+Proof. unfold sub_list. rewrite firstn_length, skipn_length. lia. Qed.
+
+Lemma gtext_length line c g : length (gtext line c g) <= length line.
+Proof.
+  unfold gtext, group_text. destruct (cap_get g c) as [[a b]|]; cbn; [|lia].
+  pose proof (sub_list_length line a (b - a)). lia.
+Qed.
+
+Lemma gstart_gtext_length line c g :
+  caps_in (length line) c -> gstart c g + length (gtext line c g) <= length line.
+Proof.
+  intros C. unfold gstart, gtext, group_text. destruct (cap_get g c) as [[a b]|] eqn:E; cbn; [|lia].
+  pose proof (sub_list_length line a (b - a)). specialize (C _ _ _ E). lia.
+Qed.
+
+Lemma pe_col_ok_intro line text off :
+  off + length text <= length line -> pe_col_ok line (parse_expression text) off.
+Proof.
+  intros H msg c E. apply parse_expression_column_range in E. lia.
+Qed.
+
+Lemma rxm_caps_in r line e c : rxm r line = MYes e c -> caps_in (length line) c.
+Proof. intros H. apply (re_match_bounds UC line r e c H). Qed.
+
+Theorem classify_cols_ok line k : classify line = ROk k -> kind_cols_ok line k.
+Proof.
+  unfold classify.
+  repeat (match goal with
+          | |- context [match rxm ?r ?l with _ => _ end] => destruct (rxm r l) as [|? ?|] eqn:?
+          end; [ | | discriminate ]).
+  all: intros H; try (inversion H; subst k; clear H; cbn [kind_cols_ok]; try exact I).
+  all: try (apply pe_col_ok_intro;
+            match goal with
+            | E : rxm _ ?l = MYes _ ?c |- context [gstart ?c ?g] =>
+              apply gstart_gtext_length; eapply rxm_caps_in; exact E
+            end).
+  - (* expression statement *) apply pe_col_ok_intro. lia.
+  - (* include '...' *) unfold unesc in H. destruct (re_sub _ _ _ _); inversion H. exact I.
+  - (* return *)
+    destruct (gtext line c R_SCRIPT_RETURN__expr) eqn:G; [exact I|]. rewrite <- G.
+    apply pe_col_ok_intro.
+    pose proof (gtext_length line c R_SCRIPT_RETURN__expr). pose proof (gtext_length line c R_SCRIPT_RETURN__return). lia.
+  - (* jump *)
+    destruct (gtext line c R_SCRIPT_JUMP__expr) eqn:G; [exact I|]. rewrite <- G.
+    intros msg col E. apply parse_expression_column_range in E.
+    pose proof (gtext_length line c R_SCRIPT_JUMP__expr). pose proof (gtext_length line c R_SCRIPT_JUMP__jump). lia.
+  - (* assignment *)
+    apply pe_col_ok_intro. pose proof (gtext_length line c R_SCRIPT_ASSIGNMENT__expr). lia.
+Qed.
+
+(* ---- what a failing step reports, and what a successful step records ---- *)
+Definition recorded (ps : pstate) : list (nat * str) :=
+  map (fun f => (frame_lineno f, frame_line f)) (ps_frames ps) ++
+  match ps_fn ps with Some fo => [(fo_lineno fo, fo_line fo)] | None => [] end.
+
+Local Arguments U : simpl never.
+Local Arguments lbl : simpl never.
+Local Arguments Nat.ltb : simpl never.
+Local Arguments Nat.leb : simpl never.
+Local Arguments retarget : simpl never.
+Local Arguments last_is_include : simpl never.
+Local Arguments find_loop : simpl never.
+
+Lemma lift_err pe line off n e :
+  lift pe line off n = RErr e -> pe_col_ok line pe off ->
+  1 <= e_col e <= length line + 1 /\ e_lineno e = Some n /\ e_line e = line.
+Proof.
+  destruct pe as [x|m c|w|]; cbn; intros H K; try discriminate. inversion H; subst e; cbn.
+  split; [eapply K; reflexivity | split; reflexivity].
+Qed.
+
+Ltac hsplit H :=
+  repeat match type of H with
+         | context [match lift ?a ?b ?c ?d with _ => _ end] => destruct (lift a b c d) eqn:?
+         | context [if ?b then _ else _] => destruct b eqn:?
+         | context [match ?x with _ => _ end] => destruct x eqn:?
+         end; try discriminate H.
+
+Theorem apply_kind_err ps n line k e :
+  apply_kind ps n line k = RErr e -> kind_cols_ok line k ->
+  1 <= e_col e <= length (e_line e) + 1 /\
+  ((e_lineno e = Some n /\ e_line e = line) \/
+   (exists f, In f (ps_frames ps) /\ e_lineno e = Some (frame_lineno f) /\ e_line e = frame_line f)).
+Proof.
+  intros H K. destruct ps as [gl fn d fr ix]. destruct k; cbn in H, K; hsplit H.
+  all: inversion H; subst; clear H; cbn.
+  all: try (split; [lia | left; split; reflexivity]).
+  all: try (match goal with L : lift _ _ _ _ = RErr _ |- _ => apply lift_err in L; [|assumption]; destruct L as (L1 & L2 & L3) end;
+            rewrite L3; split; [exact L1 | left; split; [exact L2 | reflexivity]]).
+  (* endfunction with an open block: the recorded header *)
+  split; [lia|]. right. eexists. split; [left; reflexivity | split; reflexivity].
+Qed.
+
+Definition fpair (f : frame) : nat * str := (frame_lineno f, frame_line f).
+
+Lemma fpair_mark f : fpair (mark_continue f) = fpair f.
+Proof. destruct f; reflexivity. Qed.
+
+Lemma find_loop_set_fpair fr : forall k0 k f,
+  find_loop fr k0 = Some (k, f) ->
+  k0 <= k /\ map fpair (set_nth_frame fr (k - k0) (mark_continue f)) = map fpair fr.
+Proof.
+  induction fr as [|x fr IH]; intros k0 k f H; [discriminate|].
+  change (find_loop (x :: fr) k0) with (if is_if_frame x then find_loop fr (S k0) else Some (k0, x)) in H.
+  destruct (is_if_frame x).
+  - apply IH in H. destruct H as [L E]. split; [lia|].
+    replace (k - k0) with (S (k - S k0)) by lia. cbn. rewrite E. reflexivity.
+  - inversion H; subst. split; [lia|]. rewrite Nat.sub_diag. cbn. rewrite fpair_mark. reflexivity.
+Qed.
+
+Ltac incl_solve :=
+  cbn; intros x Hx; cbn in Hx |- *;
+  repeat (rewrite ?in_app_iff in *; cbn in Hx |- *); tauto.
+
+Theorem apply_kind_recorded ps n line k ps' :
+  apply_kind ps n line k = ROk ps' -> incl (recorded ps') ((n, line) :: recorded ps).
+Proof.
+  intros H. destruct ps as [gl fn d fr ix]. unfold recorded. destruct k; destruct fn as [fo|]; cbn in H.
+  25,26: (destruct (find_loop fr 0) as [[kk ff]|] eqn:F; [|discriminate];
+          destruct (Nat.ltb _ _); [discriminate|]; apply find_loop_set_fpair in F; destruct F as [_ F]; rewrite Nat.sub_0_r in F;
+          inversion H; subst; cbn; change (fun f => (frame_lineno f, frame_line f)) with fpair; rewrite F; incl_solve).
+  all: hsplit H; inversion H; subst; clear H; incl_solve.
+Qed.
+
+(* host exceptions of a step: only what the expression parser reports (float() on a number
+   literal) and the model's own "pending jump not found" marker at endif *)
+Definition kind_host (k : lkind) (w : str) : Prop :=
+  match k with
+  | KAssign _ pe _ | KIf pe _ | KElif pe _ | KWhile pe _ | KFor _ _ pe _ | KExpr pe => pe = EHost w
+  | KJump _ (Some pe) _ | KReturn (Some pe) _ => pe = EHost w
+  | _ => False
+  end.
+
+Lemma lift_host pe line off n w : lift pe line off n = RHost w -> pe = EHost w.
+Proof. destruct pe; cbn; intros H; try discriminate. inversion H. reflexivity. Qed.
+
+Theorem apply_kind_host ps n line k w :
+  apply_kind ps n line k = RHost w ->
+  kind_host k w \/ (k = KEndIf /\ w = U "model: pending jump not found").
+Proof.
+  intros H. destruct ps as [gl fn d fr ix]. destruct k; cbn in H; hsplit H.
+  all: try (match goal with L : lift _ _ _ _ = RHost _ |- _ => apply lift_host in L end; inversion H; subst; left; reflexivity).
+  all: inversion H; subst; clear H.
+  - (* endfunction: label_defs.pop() on an empty list is unreachable: the guard says the list is longer than the depth *)
+    exfalso. cbn in *. match goal with E : Nat.ltb _ _ = true |- _ => apply Nat.ltb_lt in E; cbn in E; lia end.
+  - right. split; reflexivity.
+Qed.
